@@ -721,25 +721,30 @@ class MessageType:
         # kingdoms/{kingdom}/phyla/{phylum}
         # becomes the regex
         # ^kingdoms/(?P<kingdom>.+?)/phyla/(?P<phylum>.+?)$
-        parsing_regex_str = (
-            "^"
-            + self.PATH_ARG_RE.sub(
-                # We can't just use (?P<name>[^/]+) because segments may be
-                # separated by delimiters other than '/'.
-                # Multiple delimiter characters within one schema are allowed,
-                # e.g.
-                # as/{a}-{b}/cs/{c}%{d}_{e}
-                # This is discouraged but permitted by AIP4231
-                lambda m: "(?P<{name}>.+?)".format(name=m.groups()[0]),
-                self.resource_path or "",
-            )
-            + "$"
-        )
-        # Special case for wildcard resource names
-        if parsing_regex_str == "^*$":
-            parsing_regex_str = "^.*$"
+        path = self.resource_path or ""
 
-        return parsing_regex_str
+        # Special case for wildcard resource names
+        if path == "*":
+            return "^.*$"
+
+        # We can't just use (?P<name>[^/]+) because segments may be
+        # separated by delimiters other than '/'.
+        # Multiple delimiter characters within one schema are allowed,
+        # e.g.
+        # as/{a}-{b}/cs/{c}%{d}_{e}
+        # This is discouraged but permitted by AIP4231
+        #
+        # The literal text between the resource ID segments is matched
+        # verbatim; delimiters such as '.' must not act as regex operators.
+        pieces = []
+        position = 0
+        for m in self.PATH_ARG_RE.finditer(path):
+            pieces.append(re.escape(path[position : m.start()]))
+            pieces.append("(?P<{name}>.+?)".format(name=m.groups()[0]))
+            position = m.end()
+        pieces.append(re.escape(path[position:]))
+
+        return "^" + "".join(pieces) + "$"
 
     def get_field(
         self, *field_path: str, collisions: Optional[Set[str]] = None
